@@ -542,9 +542,11 @@ def c08_compare(rq, impl, model):
     # direct all-or-nothing predicate on the implementation
     f = rq.split(" ")
     dest = f[3] if len(f) > 3 else ""
-    for pre in ("nu8:", "long:", "lnkrel:", "lnkabs:", "hard:"):
+    for pre in ("nu8:", "long:", "lnkrel:", "lnkabs:", "hard:", "stale:"):
         if dest.startswith(pre):
             dest = dest[len(pre):]
+    if dest.startswith("deep:"):
+        dest = "absent"      # a directory or an unresolvable path: reading it gives nothing
     st = impl.split(" ")[0]
     after = impl.split("dest=", 1)[1] if "dest=" in impl else ""
     before = {"absent": "absent", "devfull": "devfull", "nodir": "nodir"}.get(dest, "file:" + dest[4:] if dest.startswith("pre:") else "?")
@@ -584,13 +586,22 @@ PROPS["C08"] = {
         "Lace.C08.live_link_preserved",
         "Lace.C08.dangling_link_replaced",
         "Lace.C08.dest_location_regular_file",
+        "Lace.C08.tmp_name_exists_refused",
+        "Lace.C08.unresolvable_refused",
+        "Lace.C08.not_replaceable_refused",
+        "Lace.C08.compileP_status",
         "Lace.C08.compileP_refines_compileFs",
         "Lace.C08.compileP_name_refines_compileFs",
         "Lace.C08.writeAllOrNothingP_spec",
         "Lace.C08.compileP_spec",
         "Lace.C08.Shape.ofPlainDir",
-        "Lace.C08.stale_tmp_link_truncates",
-        "Lace.C08.symlink_depth_counterexample",
+        "Lace.C08.Shape.ofNotLink",
+        "Lace.C08.Shape.ofResolves",
+        "Lace.C08.Shape.ofUnresolvable",
+        "Lace.C08.stale_tmp_link_truncates_before_fix",
+        "Lace.C08.stale_tmp_link_refused",
+        "Lace.C08.symlink_depth_counterexample_before_fix",
+        "Lace.C08.symlink_depth_refused",
     ],
     "needs_bin": True,
     "compare": c08_compare,
